@@ -729,3 +729,21 @@ def fft_transform_summary(ex, fr, st, args, ins):
 @stubset('fft_summary')
 def _fftsum():
     return {'(github.com/Trisia/randomness/fft.FFT).Transform': fft_transform_summary}
+
+
+def path_base(ex, fr, st, args, ins):
+    import posixpath
+    return posixpath.basename(args[0]) if args[0] else '.'
+
+
+@stubset('tools')
+def _tools():
+    d = dict(_fast2())
+    d.update(_files())
+    d.update(_libsum())
+    d.update({'path.Base': path_base})
+    nop = lambda ex, fr, st, args, ins: None
+    for n in ('flag.BoolVar', 'flag.StringVar', 'flag.IntVar', 'flag.Parse', 'flag.PrintDefaults', 'log.SetPrefix', 'fmt.Fprintf', 'fmt.Fprint',
+              'fmt.Fprintln', 'flag.Usage'):
+        d[n] = nop
+    return d
